@@ -173,6 +173,13 @@ class FakeNP:
     def __init__(self, rtol, atol):
         self._rtol, self._atol = rtol, atol
 
+    def __getattr__(self, name):  # dtypes, constants and helpers not touched by symbolic data
+        return getattr(real_np, name)
+
+    @staticmethod
+    def result_type(*a):
+        return real_np.result_type(*a)
+
     @staticmethod
     def asarray(x, dtype=None):
         return x if isinstance(x, SymArr) else real_np.asarray(x, dtype=dtype)
